@@ -10,6 +10,7 @@ CONSTANTS
   ListenerValues <- ValuesL
   OutValues <- ValuesAll
   OutKinds <- KindsAll
+  MCScopes <- ScopesAll
   Emitting = FALSE
 INVARIANT PContained
 INVARIANT PZeroIff
